@@ -1771,7 +1771,7 @@ class TransformChainsTopology(Topology):
 
     def basis_spline(self, degree):
         assert degree == 1
-        return self.basis('std', degree)
+        return self.basis('std', degree=degree)
 
     def _basis_c0_structured(self, name, degree):
         'C^0-continuous shape functions with lagrange stucture'
